@@ -220,6 +220,48 @@ func valueBody(name string, n int, backpressure, lateConsumer bool) func() {
 	}
 }
 
+// ---- harness B2: a stalled backpressure subscriber next to a lossy one that keeps receiving.
+// The writes fail with the send timeout (that is the backpressure subscriber's doing); the lossy subscriber,
+// which never made anybody wait, must still end up with the most recent value.
+func mixedBody(name string, n int, stalledFirst bool) func() {
+	return func() {
+		val := resource.NewValue(resource.WithInitialValue(msg(0)))
+		ctx, cancel := context.WithCancel(context.Background())
+		defer cancel()
+		var stalled <-chan *resource.ValueChange
+		open := func() { stalled = val.Pull(ctx, resource.WithBackpressure(true), resource.WithUpdatesOnly(true)) }
+		if stalledFirst {
+			open()
+		}
+		ch := val.Pull(ctx, resource.WithBackpressure(false), resource.WithUpdatesOnly(true))
+		if !stalledFirst {
+			open()
+		}
+		_ = stalled
+		var received []string
+		go func() {
+			for c := range ch {
+				received = append(received, show(c.Value))
+			}
+		}()
+		var wg sync.WaitGroup
+		wg.Add(1)
+		go func() {
+			defer wg.Done()
+			for k := 1; k <= n; k++ {
+				val.Set(msg(k)) // errors are the stalled subscriber's business (harness B)
+			}
+		}()
+		wg.Wait()
+		verifrt.WaitIdle()
+		final := show(val.Get())
+		if len(received) == 0 || received[len(received)-1] != final {
+			verifrt.Logf("FAIL last-value %s ## the lossy subscriber received %v, the store holds %s", name, received, final)
+		}
+		verifrt.Logf("OUT received=%v", received)
+	}
+}
+
 // ---- harness D: the excess components alone
 func componentBody(name string, seq []ev, merge bool, closeAfter bool) func() {
 	return func() {
@@ -399,6 +441,12 @@ func main() {
 				continue
 			}
 			h.Sched(name, q, -1, valueBody(name, n, true, late), hx.StdOracle)
+		}
+	}
+	for _, first := range []bool{true, false} {
+		for n := 1; n <= 2; n++ {
+			name := fmt.Sprintf("value-mixed/stalled-backpressure+lossy/n=%d/stalled-first=%v", n, first)
+			h.Sched(name, -1, -1, mixedBody(name, n, first), hx.StdOracle)
 		}
 	}
 	for n := 0; n <= 4; n++ {
